@@ -403,16 +403,20 @@ func (s *Scanner) ScanTopologyExact(topo *topology.FunctionTopology, funcName st
 	// this a structurally unrelated signature that happens to score >= 0.99 (same
 	// block count, no required calls) shadows the function's own signature.
 	hash := detection.GenerateTopologyHash(topo)
+	// Several signatures can share a topology hash (the hash ignores literals and
+	// entropy); report the best of them, as the PebbleDB backend does, not the first.
+	var best *detection.ScanResult
 	for _, sig := range s.db.Signatures {
 		if sig.TopologyHash != hash {
 			continue
 		}
 		// Using a strict 0.0 tolerance. We are looking for twins, not cousins.
 		result := detection.MatchSignature(topo, funcName, sig, 0.0)
-		if result.Confidence >= 0.99 {
-			return &result, nil
+		if result.Confidence >= 0.99 && (best == nil || result.Confidence > best.Confidence) {
+			r := result
+			best = &r
 		}
 	}
 
-	return nil, nil
+	return best, nil
 }
